@@ -279,7 +279,34 @@ impl<'a> Gen<'a> {
                 Wrapper::Vec => {
                     let k = self.pick(3);
                     let k = if self.depth > 0 { 1 } else { k };
-                    let n = [0usize, 1, 3][k];
+                    let mut n = [0usize, 1, 3][k];
+                    // per-item overrides "<Comp>::<wire>#<j>" decide the number of items
+                    let mut per_item: Vec<(String, Content)> = vec![];
+                    if let Some(ov) = self.overrides {
+                        let mut j = 0;
+                        while let Some((text, lex)) = ov(&format!("{}::{}#{j}", self.cur_comp, m.wire)) {
+                            let one = match &m.ty {
+                                ExpTy::Named(ns, local) => match (self.model.comp(ns, local, true).cloned(), find_struct(self.ex, ns, local).first().copied()) {
+                                    (Some(c), Some(st)) if c.kind == CompKind::Simple => Some((self.simple_struct_expr(st, &text, 0), Content::Text(lex))),
+                                    _ => None,
+                                },
+                                ExpTy::Builtin(r, _) if r == "String" => Some((format!("{text:?}.to_string()"), Content::Text(lex))),
+                                _ => None,
+                            };
+                            match one {
+                                Some(o) => per_item.push(o),
+                                None => break,
+                            }
+                            j += 1;
+                            if j > 8 {
+                                break;
+                            }
+                        }
+                    }
+                    if !per_item.is_empty() {
+                        n = per_item.len();
+                    }
+                    let alts = if per_item.is_empty() { alts } else { per_item };
                     let mut items = vec![];
                     for j in 0..n {
                         let (e, c) = &alts[j % alts.len()];
